@@ -6,6 +6,15 @@ from pathlib import Path
 
 
 def _jaqal_find_spec_relative(mod_name, search_path):
+    try:
+        return _jaqal_find_spec_in(mod_name, search_path)
+    except OSError:
+        # A name the file system cannot even look up (too long, ...) is not
+        # the name of a module that can be found
+        raise ImportError(f"Unable to find module {mod_name}")
+
+
+def _jaqal_find_spec_in(mod_name, search_path):
     # Our top preference is a module in a directory:
     try_directory = search_path / mod_name
     if try_directory.is_dir():
